@@ -180,7 +180,22 @@ def write(ck):
         return val
 
     seen2 = explore(cfg, (False, False, False), tr, lambda text: False, edge_transfer=edge)
-    lens = cfg.stmt_nodes(lambda n: n.kind in ("stmt", "test") and any(q.is_call(c, "len") and c.args and q.dotted(c.args[0]) == data for c in q.calls(n.ast))) + appends
+    def _len_uses(n):
+        """len(data) used as a quantity (an emptiness test `len(data) > 0 / == 0 / != 0` is unit-free)"""
+        if n.kind not in ("stmt", "test") or n.ast is None:
+            return False
+        pm_ = q.parent_map(n.ast)
+        for c in q.calls(n.ast):
+            if q.is_call(c, "len") and c.args and q.dotted(c.args[0]) == data:
+                par = pm_.get(c)
+                if isinstance(par, ast.Compare) and len(par.ops) == 1 and isinstance(par.ops[0], (ast.Gt, ast.NotEq, ast.Eq, ast.GtE, ast.Lt, ast.LtE)) and ((par.left is c and q.is_const(par.comparators[0], 0)) or (par.comparators[0] is c and q.is_const(par.left, 0))):
+                    continue
+                if n.kind == "test" and n.ast is c:
+                    continue
+                return True
+        return False
+
+    lens = cfg.stmt_nodes(_len_uses) + appends
     for n in lens:
         states = seen2.get(n.id, set())
         ok = bool(states) and all(tested and (casted or not ismv) for _f, (tested, ismv, casted) in states)
@@ -492,7 +507,7 @@ def stream_buffer(ck):
             except SyntaxError:
                 continue
             names_ = {x.id for x in ast.walk(e_) if isinstance(x, ast.Name)} | {q.unparse(x) for x in ast.walk(e_) if isinstance(x, ast.Call)}
-            if sz in names_ and isinstance(e_, ast.Compare):
+            if sz in names_ and isinstance(e_, (ast.Compare, ast.Name)):
                 fs = fs | {(t_, p_)}
         return (a, b, fs)
 
@@ -504,7 +519,12 @@ def stream_buffer(ck):
         out = set()
         for k in range(0, 7):
             try:
-                if all(bool(q.fold(ast.parse(t, mode="eval").body, {sz: k, "self._large_buf_threshold": 4})) == p for t, p in f):
+                env_ = {sz: k}
+                for t_, _p in f:
+                    for pth in q.paths_in(ast.parse(t_, mode="eval").body):
+                        if pth != sz and pth not in ("self",) and not pth.startswith(sz + "."):
+                            env_.setdefault(pth, 4)  # whatever the large-chunk threshold is called
+                if all(bool(q.fold(ast.parse(t, mode="eval").body, env_)) == p for t, p in f):
                     out.add(k)
             except q.NotFoldable as ex:
                 raise AnalysisError("cannot evaluate the size test in _StreamBuffer.append: %s" % ex)
